@@ -86,13 +86,13 @@ def run(ctx):
         elif form == 5: b = b'<svg' + ns + b'><desc>t' + t + b'</desc></svg>'
         elif form == 6: b = b'<svg' + ns + b'><![CDATA[x' + t + b']]></svg>'
         else: b = b'<svg' + ns + b'><g title="a' + t + b'"/></svg>'
-        bcases.append(Case('b%d' % i, 'docbytes', [lib.enc_cfg({}), b.hex()], {'bytes': b}))
+        bcases.append(Case('b%d' % i, 'docbytes', [lib.enc_cfg({}), b.hex()], {'input': repr(b)}))
     bres = lib.run_impl(bcases)
     for c in bcases:
         st['evaluations'] += 1
         r = bres.get(c.id)
         if not r or r[0] not in ('OK', 'ERR'):
-            yield {'kind': 'oracle', 'what': 'transform_stream did not return on %r: %s' % (c.meta['bytes'], r), 'case': c.to_json(), 'observed': r, 'expected': 'Ok or Err'}
+            yield {'kind': 'oracle', 'what': 'transform_stream did not return on %s: %s' % (c.meta['input'], r), 'case': c.to_json(), 'observed': r, 'expected': 'Ok or Err'}
         elif r[0] == 'OK':
             out = bytes.fromhex(r[1])
             try:
@@ -101,7 +101,7 @@ def run(ctx):
             except UnicodeDecodeError as e:
                 bad = str(e)
             if bad:
-                yield {'kind': 'oracle', 'what': 'transform_stream succeeded on %r and wrote bytes that are not UTF-8 (%s): %r' % (c.meta['bytes'], bad, out[:300]),
+                yield {'kind': 'oracle', 'what': 'transform_stream succeeded on %s and wrote bytes that are not UTF-8 (%s): %r' % (c.meta['input'], bad, out[:300]),
                        'case': c.to_json(), 'observed': out.hex()[:600], 'expected': 'an error, or well-formed UTF-8 XML', 'doc_kind': 'bytes', 'msg': 'not utf-8'}
     dist['byte_stream_inputs'] = len(bcases)
     cases = []
